@@ -55,8 +55,14 @@ Join(i) == /\ Can("join") /\ i > 1 /\ ~joined[i] /\ extra[i] = 0 /\ span[i] = 1 
 SetEol(e)  == Can("eol") /\ e # eol /\ eol' = e /\ Log([k |-> "eol", e |-> e]) /\ UNCHANGED <<span, extra, joined, case, trail, form>>
 SetCase(c) == Can("case") /\ c # case /\ case' = c /\ Log([k |-> "case", c |-> c]) /\ UNCHANGED <<span, extra, joined, eol, trail, form>>
 \* a trailing comment that contains a ";" (it must not be taken for a statement separator)
-TrailComment(i) == /\ Can("tcomment") /\ Log([k |-> "tcomment", at |-> i])
-                   /\ UNCHANGED <<span, extra, joined, eol, case, trail, form>>
+\* `first`: on a continued statement the comment follows the FIRST physical line (behind its "&")
+TrailComment(i, fst) == /\ Can("tcomment") /\ (fst => span[i] > 1) /\ Log([k |-> "tcomment", at |-> i, first |-> fst])
+                        /\ UNCHANGED <<span, extra, joined, eol, case, trail, form>>
+\* a comment line or a blank line BETWEEN the physical lines of a continued statement: the statement occupies
+\* one more physical line, everything below shifts by one
+InnerComment(i, what) == /\ Can("icomment") /\ span[i] > 1 /\ span[i] < 5
+                         /\ span' = [span EXCEPT ![i] = @ + 1] /\ Log([k |-> "icomment", at |-> i, what |-> what])
+                         /\ UNCHANGED <<extra, joined, eol, case, trail, form>>
 \* remove all indentation (free form stays free form)
 FlushLeft == /\ Can("flush") /\ form = "free" /\ ~\E j \in 1..Len(ops) : ops[j].k = "flush"
              /\ Log([k |-> "flush"]) /\ UNCHANGED <<span, extra, joined, eol, case, trail, form>>
@@ -70,7 +76,8 @@ Step == \/ \E i \in Stmts : InsertBlank(i) \/ InsertComment(i) \/ Join(i)
         \/ \E e \in {"LF", "CRLF", "CR"} : SetEol(e)
         \/ \E c \in {"upper", "lower", "mixed"} : SetCase(c)
         \/ Trail \/ FlushLeft
-        \/ \E i \in Stmts : TrailComment(i)
+        \/ \E i \in Stmts, fst \in BOOLEAN : TrailComment(i, fst)
+        \/ \E i \in Stmts, w \in {"comment", "blank"} : InnerComment(i, w)
         \/ \E f \in {"C", "c", "*", "!", "d"} : ToFixed(f)
 Next == Step /\ lmap' = LineMap'
 Spec == Init /\ [][Next]_vars
